@@ -14,7 +14,7 @@ RULE = ("Inputs of 3..300 sequences (quick <= 160): clade-structured families (b
         "alignment (rows rebuilt from the snapshot gap vectors). Non-trivial = some non-root node with >= 2 members into which "
         "a later merge inserted >= 1 column; distinct by hash of the case.")
 ASSUMPTIONS = ["the MERGE_END event fires after make_seq/sip update of the node (add-only hook in do_align)"]
-BUDGET = {"quick": dict(examples=100, workers=12, seconds=75), "thorough": dict(examples=900, workers=16, seconds=600)}
+BUDGET = {"quick": dict(examples=500, workers=12, seconds=75), "thorough": dict(examples=900, workers=16, seconds=600)}
 
 
 def chain_family(seed, alphabet, n, length, sub, indel):
